@@ -88,21 +88,57 @@ def fromMasterOf (mkids : List Obj) (idx : Nat) (mo : Obj) : List (Bool × Obj) 
   (mkids.zipIdx.filter (fun (p : Obj × Nat) => !p.1.meta.disabled && p.1.name == mo.name && p.2 != idx)).map
     (fun (p : Obj × Nat) => (true, p.1))
 
-def tmplObjsOf (diff : Bool) (mo : Obj) (processed : List (Str × Int)) : List Obj :=
+def tmplObjsOf (diff : Bool) (mo : Obj) (processed : List (Str × Int)) (self : R (Obj × List Nat)) : List Obj :=
   if diff then [] else
-    let t : Int := if (mo.attr "optional").mandatory then 0 else if processed.isEmpty then 1 else -1
-    [withTmpl mo t]
+    if (mo.attr "optional").mandatory then [defaultInstOf mo self]
+    else [withTmpl mo (if processed.isEmpty then 1 else -1)]
+
+theorem defaultInstOf_defn (mm : Meta) (mws : List Word) (self : R (Obj × List Nat)) :
+    defaultInstOf (.defn mm mws) self = withTmpl (.defn mm mws) 0 := rfl
+
+/-- for a master definition the template object is the master's copy with the flag `0` (mandatory),
+    `1` (nothing survives) or `-1` -/
+theorem tmplObjsOf_defn (diff : Bool) (mm : Meta) (mws : List Word) (processed : List (Str × Int))
+    (self : R (Obj × List Nat)) :
+    tmplObjsOf diff (.defn mm mws) processed self =
+      if diff then [] else
+        [withTmpl (.defn mm mws)
+          (if ((Obj.defn mm mws).attr "optional").mandatory then 0 else if processed.isEmpty then 1 else -1)] := by
+  unfold tmplObjsOf
+  rw [defaultInstOf_defn]
+  cases diff <;> simp only [Bool.false_eq_true, if_false, if_true]
+  split <;> rfl
+
+/-- `master_object.fetch()` of a `.multiple` master scope (no sources, never in diff mode); not looked at
+    for a definition -/
+def selfFetchOf (F : FetchFn) (mo : Obj) : R (Obj × List Nat) :=
+  match mo with
+  | .scope mm kids => F false mm kids []
+  | .defn _ _ => .error .outOfFuel
+
+/-- the master key of a `.multiple` master object, through the callee `F` -/
+def masterKeyG (F : FetchFn) (e : Envs) (fuel : Nat) (mo : Obj) : R Str :=
+  masterKeyOf e fuel mo (selfFetchOf F mo)
+
+theorem masterKeyG_defn (F : FetchFn) (e : Envs) (fuel : Nat) (mm : Meta) (mws : List Word) :
+    masterKeyG F e fuel (.defn mm mws) = extractFormatStr e (fuel + 64) (.defn mm mws) (.defn mm mws) := rfl
+
+theorem masterKeyG_scope (F : FetchFn) (e : Envs) (fuel : Nat) (mm : Meta) (kids : List Obj) :
+    masterKeyG F e fuel (.scope mm kids) =
+      match F false mm kids [] with
+      | .error err => .error err
+      | .ok (ro, _) => extractFormatStr e (fuel + 64) (.scope mm kids) ro := rfl
 
 def multiBranch (F : FetchFn) (e : Envs) (fuel : Nat) (diff : Bool) (mkids : List Obj) (idx : Nat)
     (mo : Obj) (matching : List Obj) (out : List Obj) (used : List Nat) : R (List Obj × List Nat) :=
-  match extractFormatStr e (fuel + 64) mo mo with
+  match masterKeyG F e fuel mo with
   | .error err => .error err
   | .ok masterStr =>
     match (fromMasterOf mkids idx mo ++ matching.map (fun (o : Obj) => (false, o))).foldlM
         (cstepG F e fuel diff mo masterStr) (([] : List (Option Obj)), ([] : List (Str × Int)), used) with
     | .error err => .error err
     | .ok (robjs, processed, used) =>
-      .ok (out ++ tmplObjsOf diff mo processed ++ robjs.filterMap (fun (x : Option Obj) => x), used)
+      .ok (out ++ tmplObjsOf diff mo processed (selfFetchOf F mo) ++ robjs.filterMap (fun (x : Option Obj) => x), used)
 
 def stepG (F : FetchFn) (e : Envs) (fuel : Nat) (diff : Bool) (sm : Meta) (mkids combined : List Obj) :
     (List Obj × List Nat) → (Nat × Obj) → R (List Obj × List Nat) := fun st io =>
@@ -393,6 +429,8 @@ structure ShapePred (F : FetchFn) (diff : Bool) (P : Obj → Obj → Prop) : Pro
   defn : ∀ mm mws ws, P (.defn mm mws) (.defn { mm with tmpl := 0 } ws)
   recur : ∀ mm kids src ro u, F diff mm kids src = .ok (ro, u) → (diff && ro.children.isEmpty) = false →
     P (.scope mm kids) ro
+  /-- the default instance of a mandatory `.multiple` scope: the scope's own fetch -/
+  inst : diff = false → ∀ mm kids ro u, F false mm kids [] = .ok (ro, u) → P (.scope mm kids) (withTmpl ro 0)
 
 theorem defnOne_fold_pred (F : FetchFn) (P : Obj → Obj → Prop) (e : Envs) (fuel : Nat) (diff : Bool) (hP : ShapePred F diff P) (mo : Obj) (l : List Obj)
     (used : List Nat) (r : Option Obj × List Nat)
@@ -481,6 +519,18 @@ theorem cstepG_pred (F : FetchFn) (P : Obj → Obj → Prop) (e : Envs) (fuel : 
       · cases h; exact hr
       · exact cAccept_shape _ _ _ _ _ _ _ _ _ _ (candOf_pred F P e fuel diff hP mo _ _ c u hc) hr h
 
+theorem defaultInstOf_pred (F : FetchFn) (P : Obj → Obj → Prop) (diff : Bool) (hP : ShapePred F diff P)
+    (hd : diff = false) (mo : Obj) : P mo (defaultInstOf mo (selfFetchOf F mo)) := by
+  cases mo with
+  | defn mm mws => exact hP.tmpl hd (.defn mm mws) 0
+  | scope mm kids =>
+    show P _ (defaultInstOf (.scope mm kids) (F false mm kids []))
+    cases h : F false mm kids [] with
+    | error err => exact hP.tmpl hd (.scope mm kids) 0
+    | ok p =>
+      obtain ⟨ro, u⟩ := p
+      exact hP.inst hd mm kids ro u h
+
 theorem multiBranch_pred (F : FetchFn) (P : Obj → Obj → Prop) (e : Envs) (fuel : Nat) (diff : Bool) (hP : ShapePred F diff P)
     (mkids : List Obj) (idx : Nat) (mo : Obj) (matching out : List Obj) (used : List Nat)
     (r : List Obj × List Nat)
@@ -494,7 +544,7 @@ theorem multiBranch_pred (F : FetchFn) (P : Obj → Obj → Prop) (e : Envs) (fu
     · cases h
     · rename_i robjs processed used' hfold
       cases h
-      refine ⟨tmplObjsOf diff mo processed ++ robjs.filterMap (fun x => x), by simp, ?_⟩
+      refine ⟨tmplObjsOf diff mo processed (selfFetchOf F mo) ++ robjs.filterMap (fun x => x), by simp, ?_⟩
       intro o ho
       rw [List.mem_append] at ho
       rcases ho with ho | ho
@@ -502,9 +552,14 @@ theorem multiBranch_pred (F : FetchFn) (P : Obj → Obj → Prop) (e : Envs) (fu
         split at ho
         · cases ho
         · rename_i hd
-          simp only [List.mem_singleton] at ho
-          subst ho
-          exact hP.tmpl (by simpa using hd) mo _
+          have hd' : diff = false := by simpa using hd
+          split at ho
+          · simp only [List.mem_singleton] at ho
+            subst ho
+            exact defaultInstOf_pred F P diff hP hd' mo
+          · simp only [List.mem_singleton] at ho
+            subst ho
+            exact hP.tmpl hd' mo _
       · rw [List.mem_filterMap] at ho
         obtain ⟨x, hx, hxo⟩ := ho
         subst hxo
@@ -571,6 +626,10 @@ theorem sameDecl_shapePred (F : FetchFn) (hF : RootShape F) (diff : Bool) : Shap
   defn := fun _ _ _ => ⟨rfl, rfl⟩
   recur := by
     intro mm kids src ro u h _
+    obtain ⟨out, rfl⟩ := hF _ _ _ _ _ _ h
+    exact ⟨rfl, rfl⟩
+  inst := by
+    intro _ mm kids ro u h
     obtain ⟨out, rfl⟩ := hF _ _ _ _ _ _ h
     exact ⟨rfl, rfl⟩
 
@@ -707,7 +766,11 @@ theorem fetch_conforms (e : Envs) : ∀ (fuel : Nat) (diff : Bool) (sm : Meta) (
           exact ConfObj.copy (.defn mm mws) mm.tmpl
         tmpl := fun _ => ConfObj.copy
         defn := ConfObj.defn
-        recur := fun mm kids src ro u h _ => ih diff mm kids src ro u h }
+        recur := fun mm kids src ro u h _ => ih diff mm kids src ro u h
+        inst := fun _ mm kids ro u h => by
+          have hc := ih false mm kids [] ro u h
+          obtain ⟨out, rfl⟩ := fetchScope_rootShape e fuel _ _ _ _ _ _ h
+          exact hc }
     obtain ⟨out, rfl, hall⟩ := fetch_shape_pred e fuel ConfObj diff hP sm mkids combined ro used h
     exact .scope sm mkids out (ConfList.of_forall mkids out hall)
 
@@ -1161,7 +1224,10 @@ def refetchCounts (e : Envs) (master source : List Obj) : Option (Nat × Nat) :=
      | .error _ => none)
   | .error _ => none
 
-theorem refetch_duplicates_nested : refetchCounts envNone w1Master w1Source = some (1, 2) := by
+/-- since the master key of a `.multiple` scope is rendered from the scope's own fetch (fix of D9), the
+    non-canonical default `yes` no longer makes the second fetch duplicate the instance (former
+    finding D8: the counts were `(1, 2)`) -/
+theorem refetch_stable_nested : refetchCounts envNone w1Master w1Source = some (1, 1) := by
   decide +kernel
 
 def w1MasterText : String := "s\n.multiple=True\n{\n  d = yes\n  .type=bool\n  .multiple=True\n}\n"
@@ -1173,8 +1239,8 @@ def refetchCountsText (e : Envs) (mt st : String) : Option (Nat × Nat) :=
   | .ok m, .ok s => refetchCounts e m s
   | _, _ => none
 
-theorem refetch_duplicates_nested_text :
-    refetchCountsText envNone w1MasterText w1SourceText = some (1, 2) := by
+theorem refetch_stable_nested_text :
+    refetchCountsText envNone w1MasterText w1SourceText = some (1, 1) := by
   decide +kernel
 
 /-- `s .multiple=True { d = 1 .multiple=True .type=int ; d = 2 }` as `parseObjs` returns it -/
@@ -1185,17 +1251,46 @@ def w2Master : List Obj :=
        [{ value := ['1'], line := some 4 }],
      .defn { name := ['d'], id := some 3, line := some 7 } [{ value := ['2'], line := some 7 }]]]
 
-theorem nested_multiple_further_occurrence_strays :
-    fetchRoot env12 false w2Master [] = .error (.stray "TypeError" "value_as_str") :=
-  eq_error_of_errOf (by decide +kernel)
+/-- compact observable form of an object tree: for every object (depth first) its dotted path (a
+    disabled object's name is preceded by `!`), its template mark and the values of its words (none
+    for a scope) -/
+def obsObj : Nat → Str → Obj → List (Str × Int × List Str)
+  | 0, _, _ => []
+  | _ + 1, pre, .defn m ws =>
+    [(pre ++ (if m.disabled then '!' :: m.name else m.name), m.tmpl, ws.map (fun (w : Word) => w.value))]
+  | f + 1, pre, .scope m kids =>
+    (pre ++ (if m.disabled then '!' :: m.name else m.name), m.tmpl, []) ::
+      kids.flatMap (obsObj f (pre ++ m.name ++ ['.']))
+
+/-- the observable form of the children of a fetch result; `none` when the fetch fails -/
+def obsFetch (e : Envs) (diff : Bool) (master : List Obj) (sources : List (List Obj)) :
+    Option (List (Str × Int × List Str)) :=
+  match fetchRoot e diff master sources with
+  | .ok (r, _) => some (r.children.flatMap (obsObj 8 []))
+  | .error _ => none
+
+/-- the same on the parser's output for texts -/
+def obsFetchText (e : Envs) (diff : Bool) (mt : String) (sts : List String) :
+    Option (List (Str × Int × List Str)) :=
+  match parseObjs mt.toList, sts.mapM (fun (s : String) => parseObjs s.toList) with
+  | .ok m, .ok ss => obsFetch e diff m ss
+  | _, _ => none
+
+/-- former finding D9: the bare fetch of this master raised TypeError (`.stray "TypeError"
+    "value_as_str"` in the model) because the raw extraction of the master block let the further
+    occurrence `d = 2` overwrite the list of `d`.  The master key is now rendered from the scope's own
+    fetch: the fetch succeeds with the template copy of `s` (both occurrences of `d` inside). -/
+theorem nested_multiple_further_occurrence_fetches :
+    obsFetch env12 false w2Master [] =
+      some [(['s'], 1, []), (['s', '.', 'd'], 0, [['1']]), (['s', '.', 'd'], 0, [['2']])] := by
+  decide +kernel
 
 def w2MasterText : String :=
   "s\n.multiple=True\n{\n  d = 1\n  .multiple=True\n  .type=int\n  d = 2\n}\n"
 
-theorem nested_multiple_further_occurrence_strays_text :
-    (match parseObjs w2MasterText.toList with
-     | .ok m => errOf (fetchRoot env12 false m [])
-     | .error _ => none) = some (.stray "TypeError" "value_as_str") := by
+theorem nested_multiple_further_occurrence_fetches_text :
+    obsFetchText env12 false w2MasterText [] =
+      some [(['s'], 1, []), (['s', '.', 'd'], 0, [['1']]), (['s', '.', 'd'], 0, [['2']])] := by
   decide +kernel
 
 /-! ## 7. last value wins (C05.6) -/
@@ -2040,7 +2135,7 @@ theorem multiBranch_strip (F : FetchFn) (hF : StripInv F) (e : Envs) (fuel : Nat
     congr 1
     funext acc ms
     exact cstepG_strip F hF e fuel diff mo masterStr acc false ms
-  cases extractFormatStr e (fuel + 64) mo mo with
+  cases masterKeyG F e fuel mo with
   | error err => rfl
   | ok masterStr =>
     simp only [key]
@@ -2143,7 +2238,8 @@ theorem diff_no_empty_scopes (e : Envs) : ∀ (fuel : Nat) (sm : Meta) (mkids co
           refine NoEmptyScope.scope _ out ?_ (ih mm kids src _ u h)
           intro hout
           subst hout
-          simp [Obj.children] at hne }
+          simp [Obj.children] at hne
+        inst := fun h => by cases h }
     obtain ⟨out, rfl, hall⟩ := fetch_shape_pred e fuel _ true hP sm mkids combined ro used h
     intro k hk
     obtain ⟨_, _, _, _, hk'⟩ := hall k hk
